@@ -406,7 +406,7 @@ impl ChainGen<'_> {
     }
 }
 
-fn chain_policy(r: &mut Rng, spec: &SchemaSpec, d: u32, const_operands: bool) -> String {
+pub(crate) fn chain_policy(r: &mut Rng, spec: &SchemaSpec, d: u32, const_operands: bool) -> String {
     let cands: Vec<usize> = spec.actions.iter().enumerate().filter(|(_, a)| a.applies.is_some()).map(|(i, _)| i).collect();
     let ai = *r.pick(&cands);
     let ap = spec.actions[ai].applies.as_ref().unwrap();
